@@ -194,7 +194,7 @@ def run(ck):
             for line in open("/proc/meminfo"):
                 if line.startswith("MemAvailable:"):
                     avail = int(line.split()[1]) // 1024
-            if avail < 16000:
+            if avail < 10000:
                 with ck.lock:
                     ck.cov["limit_size_item"] = "skipped: only %d MiB available" % avail
                 return
